@@ -117,6 +117,30 @@ Definition conv_of (c : cfg) (s : Select.st) (k : kind) : conv :=
   | KTime => CTime
   end.
 
+(* the DOCUMENTED conversions, independent of what the translator finds in the source (the SPEC side) *)
+Definition spec_conv_t (c : cfg) (t : Q) : Q :=
+  match c_fmt c with
+  | V1 => ((1 # 1000) * t + (1 # 2) * c_dump c + c_off c)%Q         (* ms -> s, start -> middle of the dump *)
+  | V2 => (t + (1 # 2) * c_dump c + c_off c)%Q                      (* start -> middle of the dump *)
+  | V3 => (t + (if c_centroid c then 0 else (1 # 2) * c_cbf_dump c) + c_off c)%Q
+  | V4 => t                                                         (* as served by the data source *)
+  end.
+
+Definition spec_conv_of (c : cfg) (s : Select.st) (k : kind) : conv :=
+  match k with
+  | KVis => CVis (match c_fmt c with V1 | V2 => true | V3 => negb (c_upper c) | V4 => false end)
+  | KFlags => CFlags (match c_fmt c with
+                      | V1 => 0
+                      | V2 => spec_mask_v2 (spec_wanted (atom_arg c (Select.flk s)))
+                      | V3 | V4 => spec_mask_v34 (spec_wanted (atom_arg c (Select.flk s))) end)
+  | KWeights => CWeights (match c_fmt c with
+                          | V1 => false
+                          | V2 | V3 => weights_on ["precision"%string] (atom_arg c (Select.wk s))
+                          | V4 => true end)
+  | KRaw => CRaw
+  | KTime => CTime
+  end.
+
 (* ------------------------------------------------------------------------------------------------ *)
 (* Indexers                                                                                           *)
 
@@ -195,6 +219,9 @@ Definition adv_shape (x : indexer) : list Z :=
 (* timestamps (v3 / v4: the array itself; v1 / v2: the indexer read in full) *)
 Definition time_mask (c : cfg) (s : Select.st) : list bool := List.concat (ix_tmasks (acquire c s KTime)).
 Definition timestamps (c : cfg) (s : Select.st) : list Q := map (conv_t c) (select (time_mask c s) (c_ts c)).
+(* SPEC: the documented conversion of the stored timestamps of the dumps in [dumps] *)
+Definition spec_timestamps (c : cfg) (s : Select.st) : list Q :=
+  map (fun i => spec_conv_t c (nth (Z.to_nat i) (c_ts c) 0%Q)) (nonzero (Select.tk s)).
 
 (* ------------------------------------------------------------------------------------------------ *)
 (* The state machine                                                                                  *)
@@ -346,7 +373,7 @@ Definition of_spec (r : res (list Z * list Z)) : sx :=
    lengths of timestamps / freqs / corr_products (freqs are channel positions) *)
 Definition of_observe (c : cfg) (s : Select.st) : sx :=
   L [of_Zs (shape s); of_Zs (dumps s); of_Zs (channels s); of_Zs (cp_idx s);
-     L (map TimeFreq.of_Q (timestamps c s));
+     L [L (map TimeFreq.of_Q (timestamps c s)); L (map TimeFreq.of_Q (spec_timestamps c s))];
      of_Zs [zlen (timestamps c s); zlen (freqs (zrange (nF c)) s); zlen (corr_products c s)];
      of_Zs (freqs (zrange (nF c)) s); of_Zs (sensor (zrange (nT c)) s)].
 
@@ -366,7 +393,7 @@ Fixpoint run_wire (c : cfg) (d : dstate) (acq : list (Select.st * kind)) (ops : 
           let x := acquire c (ds_sel d) k in
           L [of_Zs (adv_shape x); of_conv (ix_conv x);
              of_Zs (match k with KTime => [zlen (dumps (ds_sel d))] | _ => shape (ds_sel d) end);
-             of_conv (conv_of c (ds_sel d) k)]
+             of_conv (spec_conv_of c (ds_sel d) k)]
           :: run_wire c {| ds_sel := ds_sel d; ds_ixs := ds_ixs d ++ [x] |} (acq ++ [(ds_sel d, k)]) rest
       | OIndex id ix2 =>
           L [match nth_error (ds_ixs d) id with
